@@ -76,6 +76,14 @@ fn documents(max_members: usize) -> Vec<String> {
             member_sets.push(vec![(keys[0].to_string(), v.clone()), (keys[3].to_string(), w.clone()), (keys[2].to_string(), x.clone())]);
         }
     }
+    if max_members >= 4 {
+        for (i, v) in values.iter().enumerate() {
+            let w = &values[(i * 3 + 1) % values.len()];
+            let x = &values[(i * 7 + 5) % values.len()];
+            let y = &values[(i * 13 + 2) % values.len()];
+            member_sets.push(vec![(keys[3].to_string(), v.clone()), (keys[1].to_string(), w.clone()), (keys[0].to_string(), x.clone()), (keys[2].to_string(), y.clone())]);
+        }
+    }
     let mut docs = vec![];
     for ms in &member_sets {
         for (pi, pv) in plugins_variants().iter().enumerate() {
@@ -624,13 +632,13 @@ pub fn run(tier: Tier) -> CheckResult {
     let mut res = CheckResult::new("C19", "exploration");
     let deadline = tier_deadline(tier);
     // ---- part A
-    let docs = documents(if tier == Tier::Quick { 2 } else { 3 });
+    let docs = documents(if tier == Tier::Quick { 3 } else { 4 });
     let work: Vec<(usize, usize)> = (0..docs.len()).flat_map(|d| (0..3).map(move |s| (d, s))).collect();
     let rres: Vec<Vec<Violation>> = work.par_iter().map(|(d, s)| if deadline.passed() { vec![] } else { roundtrip_case(&docs[*d], *s) }).collect();
     let mut all_v: Vec<Violation> = rres.into_iter().flatten().collect();
     // ---- part B
     let mut pcases: Vec<PrecCase> = vec![];
-    let sources: Vec<Source> = if tier == Tier::Quick { vec![Source::NoFile, Source::CwdTauriConf, Source::ExplicitConfig] } else { vec![Source::NoFile, Source::CwdTauriConf, Source::SrcTauriConf, Source::ParentTauriConf, Source::ExplicitConfig] };
+    let sources: Vec<Source> = if false { vec![Source::NoFile, Source::CwdTauriConf, Source::ExplicitConfig] } else { vec![Source::NoFile, Source::CwdTauriConf, Source::SrcTauriConf, Source::ParentTauriConf, Source::ExplicitConfig] };
     let s = |x: &str| Some(x.to_string());
     let mut single_field_files: Vec<FileVals> = vec![FileVals::default()];
     for p in ["default-dir", "alt", "missing"] {
@@ -742,7 +750,7 @@ pub fn run(tier: Tier) -> CheckResult {
     res.coverage.set("distinct_outcomes", outcomes.len() as u64);
     res.coverage.set("exhaustive", exhaustive);
     res.coverage.set("samples", json!([docs[docs.len() / 3], docs[docs.len() - 2], pcases[pcases.len() / 2]]));
-    res.coverage.set("rule", "Part A (in process): JSON documents with 0..2 (quick) / 0..3 (thorough) extra top-level members whose values range over the i64/u64 extremes, decimals, exponents, -0.0, escaped and non-ASCII strings, nested arrays/objects (also as one-level objects), crossed with seven shapes of the plugins section (absent, empty, other plugins, existing typegen entry, typegen entry with unknown keys, null entries, typegen entry carrying every optional setting) at varying key positions, crossed with three settings objects; save_to_tauri_config then: document minus plugins.typegen is value-equal to the original, and from_tauri_config returns the persisted settings. Part B (real binary): for each configuration source (none, the discovered tauri.conf.json locations, --config file) every single-field file (absent / valid values / invalid value) x all 32 flag subsets, plus multi-field files x 11 flag subsets, plus value flags spelled with the built-in default values against files that say otherwise; effective setting = first-defined(flag, file, default), observed through which directory receives output, which project's command is wrapped, the Generator header line, verbose output, regeneration over a matching cache; invalid effective library / missing project path => non-zero exit and an unchanged sandbox tree. Part C (real binary, `init`): -p {default, other, missing} x -g given or not x -v {absent, zod, none, unsupported} x -o {default tauri.conf.json in the project, new standalone file, existing standalone file without / with --force, explicit tauri.conf.json elsewhere}; an unsupported library, a missing project path or an existing standalone file without --force => non-zero exit and an unchanged sandbox tree; otherwise exit 0, only the configuration file and the output directory change, the file reads back as the settings given, every other key of a tauri.conf.json survives, and the initial generation used the same settings.");
+    res.coverage.set("rule", "Part A (in process): JSON documents with 0..3 (quick) / 0..4 (thorough) extra top-level members whose values range over the i64/u64 extremes, decimals, exponents, -0.0, escaped and non-ASCII strings, nested arrays/objects (also as one-level objects), crossed with seven shapes of the plugins section (absent, empty, other plugins, existing typegen entry, typegen entry with unknown keys, null entries, typegen entry carrying every optional setting) at varying key positions, crossed with three settings objects; save_to_tauri_config then: document minus plugins.typegen is value-equal to the original, and from_tauri_config returns the persisted settings. Part B (real binary): for each configuration source (none, the discovered tauri.conf.json locations, --config file) every single-field file (absent / valid values / invalid value) x all 32 flag subsets, plus multi-field files x 11 flag subsets, plus value flags spelled with the built-in default values against files that say otherwise; effective setting = first-defined(flag, file, default), observed through which directory receives output, which project's command is wrapped, the Generator header line, verbose output, regeneration over a matching cache; invalid effective library / missing project path => non-zero exit and an unchanged sandbox tree. Part C (real binary, `init`): -p {default, other, missing} x -g given or not x -v {absent, zod, none, unsupported} x -o {default tauri.conf.json in the project, new standalone file, existing standalone file without / with --force, explicit tauri.conf.json elsewhere}; an unsupported library, a missing project path or an existing standalone file without --force => non-zero exit and an unchanged sandbox tree; otherwise exit 0, only the configuration file and the output directory change, the file reads back as the settings given, every other key of a tauri.conf.json survives, and the initial generation used the same settings.");
     res.assumptions = vec!["integers outside the i64/u64 range are not part of the document alphabet (serde_json reads them as floats)".into()];
     res
 }
